@@ -30,7 +30,9 @@ def run(ctx):
     # V: random signed transactions, encodings, mutations
     tp = os.path.join(ctx.scratch, "trace.ndjson")
     s, _ = ctx.drive(drv, ["-mode", "record", "-trace", tp, "-n", ctx.pick(40, 1500), "-blobs", ctx.pick(1, 6)], name="c02-record", timeout=3600)
-    ok, consumed, total, r = ctx.validate("codec/TxEnvelopeTrace", tp, ntraces=s["evaluations"], timeout=ctx.pick(1800, 7200))
+    # VERIF_C02_STRICT=1: no tolerance for the pending finding (used to validate the candidate fix)
+    tcfg = "codec/TxEnvelopeTraceStrict" if os.environ.get("VERIF_C02_STRICT") else None
+    ok, consumed, total, r = ctx.validate("codec/TxEnvelopeTrace", tp, cfg=tcfg, ntraces=s["evaluations"], timeout=ctx.pick(1800, 7200))
     if not ok:
         ctx.reject_trace("codec/TxEnvelopeTrace", tp, consumed, r)
     m = [l for l in r.stdout.splitlines() if l.startswith('<<"KNOWN"')]
